@@ -204,7 +204,7 @@ def r07_2(ctx, rr):
     rr.check(len(zips) == 1 and zips[0]["args"] and any(x is tc[0] for x in walk(zips[0]["args"][0])) if tc else False, "par_solve:zip-shards-chunks", "par_solve must pair the i-th shard with the i-th chunk (shard_iter.zip(chunks))", p.span)
 
 
-@rule("R17.1", props=["C17", "C07"], floor=8, title="build_loop/try_seed: every Result from lenders, store and rewinds is propagated")
+@rule("R17.1", props=["C17", "C07", "C08"], floor=8, title="build_loop/try_seed: every Result from lenders, store and rewinds is propagated")
 def r17_1(ctx, rr):
     F = ctx.F()
     targets = ("Lender::next", "RewindableIoLender::rewind", "SigStore::try_push", "SigStore::into_shard_store", "sig_store::new_offline", "sig_store::new_online")
@@ -304,7 +304,7 @@ def r17_2(ctx, rr):
     rr.check(len(oks) == 1 and show(F, oks[0]["e"]) == "v1::Ok(func)", "build_loop:ok-only-from-try_seed", "build_loop must return Ok only with the function returned by try_seed", b.span)
 
 
-@rule("R17.3", props=["C17", "C20", "C07"], floor=2, title="both lenders are rewound on every path from a failed attempt to the next one")
+@rule("R17.3", props=["C17", "C20", "C07", "C08"], floor=2, title="both lenders are rewound on every path from a failed attempt to the next one")
 def r17_3(ctx, rr):
     F = ctx.F()
     b = F.one(r"^func::vbuilder::VBuilder::<W, D, S, E>::build_loop$")
@@ -584,3 +584,73 @@ def r20_3(ctx, rr):
     rr.ob(not uses_remaining, key="Take::rewind:original-count", sample={"fn": b.key, "body": show(F, b.body)[:200]})
     if uses_remaining:
         rr.violate("Take::rewind:uses-remaining-count", "%s rebuilds the Take adapter with the count returned by into_parts(), which is the number of items *remaining*: after consuming k of n items the rewound lender yields only n - k items" % b.key, b.span)
+
+
+@rule("R07.6", props=["C07", "C08", "C17"], floor=7, title="peelers: the stacks count what was pushed, and an incomplete peel never reaches assignment")
+def r07_6(ctx, rr):
+    F = ctx.F()
+    # --- stack discipline: cursor fields are the only notion of length
+    fs_len = F.one(r"^func::vbuilder::FastStack::<X>::len$")
+    fs_push = F.one(r"^func::vbuilder::FastStack::<X>::push$")
+    s = ("var", "self", fs_len.params[0]["id"])
+    t = Termizer(F, fs_len).term(fs_len.body)
+    rr.instances += 1
+    rr.check(t == ("field", s, "top"), "FastStack::len", "FastStack::len must be the number of elements pushed (`self.top`), not the capacity of the preallocated buffer; found %s" % tshow(t), fs_len.span)
+    ps = ("var", "self", fs_push.params[0]["id"])
+    px = ("var", fs_push.params[1]["name"], fs_push.params[1]["id"])
+    ev = []
+
+    def on_node(W, n, K):
+        if W.debug_depth:
+            return
+        if n.get("k") == "Assign" and n["l"].get("k") == "Index":
+            ev.append(("store", W.T.term(n["l"]["i"]), W.T.term(n["r"])))
+        if n.get("k") == "AssignOp":
+            ev.append((n["op"], W.T.term(n["l"]), W.T.term(n["r"])))
+    Walker(F, fs_push, on_node=on_node).run()
+    rr.instances += 1
+    rr.check(ev == [("store", ("field", ps, "top"), px), ("+=", ("field", ps, "top"), ("int", 1))], "FastStack::push", "FastStack::push must store at index `top` and then increment `top` by one; found %s" % [(e[0], tshow(e[1]), tshow(e[2])) for e in ev], fs_push.span)
+    it = F.one(r"^func::vbuilder::FastStack::<X>::iter$")
+    its = ("var", "self", it.params[0]["id"])
+    tt = Termizer(F, it).term(it.body)
+    rr.instances += 1
+    rr.check(mentions(tt, lambda x: x[0] == "struct" and dict(x[2]).get("end") == ("field", its, "top")), "FastStack::iter", "FastStack::iter must cover exactly the first `top` slots", it.span)
+    ul = F.one(r"^func::vbuilder::DoubleStack::<V>::upper_len$")
+    us = ("var", "self", ul.params[0]["id"])
+    ut = Termizer(F, ul).term(ul.body)
+    rr.instances += 1
+    rr.check(ut == mk_op("-", ("call", "len", (("field", us, "stack"),)), ("field", us, "upper")), "DoubleStack::upper_len", "DoubleStack::upper_len must be `stack.len() - upper`; found %s" % tshow(ut), ul.span)
+    for nm, want in (("push_lower", [("store", "lower"), ("+=", "lower")]), ("push_upper", [("-=", "upper"), ("store", "upper")])):
+        b = F.one(r"^func::vbuilder::DoubleStack::<V>::%s$" % nm)
+        bs = ("var", "self", b.params[0]["id"])
+        ev = []
+
+        def on_node2(W, n, K, ev=ev):
+            if W.debug_depth:
+                return
+            if n.get("k") == "Assign" and n["l"].get("k") == "Index":
+                i = W.T.term(n["l"]["i"])
+                ev.append(("store", i[2] if i[0] == "field" else "?"))
+            if n.get("k") == "AssignOp":
+                l = W.T.term(n["l"])
+                ev.append((n["op"], l[2] if l[0] == "field" else "?"))
+        Walker(F, b, on_node=on_node2).run()
+        rr.instances += 1
+        rr.check(ev == want, "DoubleStack::%s" % nm, "DoubleStack::%s must %s; found %s" % (nm, "store at `lower` then increment it" if nm == "push_lower" else "decrement `upper` then store at it", ev), b.span)
+    # --- peel completeness: shard length compared with the number of peeled edges; mismatch leaves before assign
+    for path, lenfn in ((r"^func::vbuilder::VBuilder::<W, D, S, E>::peel_by_index$", "DoubleStack::upper_len"),
+                        (r"^func::vbuilder::VBuilder::<W, D, S, E>::peel_by_sig_vals_high_mem$", "FastStack::len"),
+                        (r"^func::vbuilder::VBuilder::<W, D, S, E>::peel_by_sig_vals_low_mem$", "DoubleStack::upper_len")):
+        b = F.one(path)
+        ok = False
+        for n in walk(b.body):
+            if n.get("k") == "If" and n["c"].get("k") == "Binary" and n["c"]["op"] == "!=" and diverges(F, n["th"]):
+                sides = [n["c"]["l"], n["c"]["r"]]
+                if any(cname(F, x) == lenfn for x in sides):
+                    other = [x for x in sides if cname(F, x) != lenfn][0]
+                    so = show(F, other)
+                    if "shard" in so and "len" in so:
+                        # nothing after this test may be skipped: the assignment comes later in the same body
+                        ok = True
+        rr.instances += 1
+        rr.check(ok, "%s:incomplete-peel-detected" % short_fn(b.key), "%s must compare the number of keys of the shard with the number of peeled edges (%s) and leave (fallback/Err) when they differ, before assigning values" % (b.key, lenfn), b.span)
